@@ -75,7 +75,7 @@ def Disk.specs (d : Disk) : List Table := match d.manifest with | none => [] | s
 /-- chunks reachable through the persisted manifest -/
 def Disk.persisted (d : Disk) (a : Addr) : Bool := d.specs.any (·.contains a)
 
-inductive Err | dangling | missingFile | newManifestNonZeroLock | emptyLock | zeroChunks | putFailed | tableNotFound | lockTimeout
+inductive Err | dangling | missingFile | newManifestNonZeroLock | emptyLock | zeroChunks | putFailed | tableNotFound | lockTimeout | noTables
 deriving DecidableEq, Repr
 
 inductive UpdRes
@@ -302,6 +302,49 @@ def addTables (env : Env) (d : Disk) (h : Handle) (ts : List Table) : Disk × Ha
         | (d', .stale _) => (d', h, some .missingFile)   -- unreachable without interleaving
         | (d', .fail e) => (d', h, some e)
 
+/-- the table file a conjoin of `ts` writes: the concatenation (a conjoin copies the records and merges the indexes
+without dropping duplicates, so its chunk count — and hence its name — differs from a table holding each chunk once) -/
+def conjoinedTable (ts : List Table) : Table := ts.flatten
+
+/-- the manifest a conjoin writes on top of `cur`: same root, conjoinees replaced by the conjoined table -/
+def conjoinContents (conjoinees : List Table) (c : Table) (cur : Contents) : Contents :=
+  { root := cur.root,
+    lock := mkLock cur.root (cur.specs.filter (fun t => !conjoinees.contains t) ++ [c]),
+    specs := cur.specs.filter (fun t => !conjoinees.contains t) ++ [c] }
+
+/-- `conjoinOperation.updateManifest`: land the conjoin as a pure rewrite of the spec list of the *current* manifest
+`cur` (root, and the root in the lock preimage, are `cur`'s): drop the conjoinees, add the conjoined table; CAS on
+`cur.lock`; on a lost CAS go round with what `Update` returned.  `fuel` bounds the loop (uninterrupted it runs at most
+twice).  Returns the manifest the caller must adopt and whether the conjoin landed (then the cleanup runs). -/
+def conjoinLand (d : Disk) (conjoinees : List Table) (c : Table) (cur : Contents) : Nat → Disk × Contents × Bool × Option Err
+  | 0 => (d, cur, false, none)
+  | fuel + 1 =>
+    if conjoinees.all (fun t => cur.specs.contains t) then
+      let new := conjoinContents conjoinees c cur
+      match d.update cur.lock new with
+      | (d', .wrote n) => (d', n, true, none)
+      | (d', .stale up) => if up.lock == new.lock then (d', up, true, none) else conjoinLand d' conjoinees c up fuel
+      | (d', .fail e) => (d', cur, false, some e)
+    else (d, cur, false, none)
+
+/-- `NomsBlockStore.ConjoinTableFiles(nil)` run without interleaving: conjoin every upstream table of the handle's
+view, land it, adopt the resulting manifest, unlink the conjoinees (`ConjoinAll`'s cleanup: no manifest LOCK). -/
+def conjoinAll (d : Disk) (h : Handle) : Disk × Handle × Option Err :=
+  if h.upTables.isEmpty then (d, h, some .noTables)
+  -- conjoinTables opens every conjoinee afresh through the persister: a file another handle's conjoin already unlinked
+  -- is not found even though this handle still holds it open
+  else if !(h.upTables.all fun t => d.files.contains t) then (d, h, some .tableNotFound)
+  else
+    let c := conjoinedTable h.upTables
+    let d0 : Disk := { d with files := if d.files.contains c then d.files else d.files ++ [c] }
+    match conjoinLand d0 h.upTables c h.upstream 4 with
+    | (d1, _, _, some e) => (d1, h, some e)
+    | (d1, m, landed, none) =>
+      if !canOpen d1 h m.specs then (d1, h, some .tableNotFound)
+      else
+        let d2 : Disk := if landed then { d1 with files := d1.files.filter (fun t => !h.upTables.contains t) } else d1
+        (d2, h.rebaseTo m, none)
+
 /-! ### the system: any number of handles on one directory -/
 
 structure Sys where
@@ -322,6 +365,7 @@ inductive Op
   | rebase (i : Nat)
   | writeTable (t : Table)
   | addTables (i : Nat) (ts : List Table)
+  | conjoin (i : Nat)       -- ConjoinTableFiles(nil), uninterrupted
 deriving Repr
 
 inductive Resp
@@ -376,19 +420,30 @@ def Sys.step (env : Env) (s : Sys) : Op → Sys × Resp
       let (d', h', e) := addTables env s.disk h ts
       ({ disk := d', hs := fun j => if j = i then h' else s.hs j }, match e with | none => .unit | some e => .err e)
 
-/-- flushing the memtable writes the new table file before anything can name it -/
-def Sys.land (s : Sys) (i : Nat) : Sys :=
-  { s with disk := { s.disk with files := (s.hs i).novel.foldl (fun fs t => if t.isEmpty || fs.contains t then fs else fs ++ [t]) s.disk.files } }
+  | .conjoin i =>
+    let h := s.hs i
+    if !h.opened || h.pc.isSome then (s, .rejected)
+    else
+      let (d', h', e) := conjoinAll s.disk h
+      ({ disk := d', hs := fun j => if j = i then h' else s.hs j }, match e with | none => .unit | some e => .err e)
 
-/-- one atomic step followed by landing the stepping handle's novel table files in the directory
+/-- flushing the memtable writes the new table file before anything can name it: the novel tables handle `i` gained in
+this step (`before` = its novel tables before the step) land in the directory.  A table file is written once, at the
+flush — if somebody unlinks it later (a conjoin's cleanup of a conjoinee with the same content address) it stays gone. -/
+def Sys.land (s : Sys) (i : Nat) (before : List Table) : Sys :=
+  let files := (s.hs i).novel.foldl
+    (fun fs t => if t.isEmpty || before.contains t || fs.contains t then fs else fs ++ [t]) s.disk.files
+  { s with disk := { s.disk with files := files } }
+
+/-- one atomic step followed by landing the stepping handle's new novel table files in the directory
 (`fsTablePersister.persistTable` runs inside `tableSet.append`, i.e. inside the step) -/
 def Sys.next (env : Env) (s : Sys) (op : Op) : Sys × Resp :=
   let (s', r) := s.step env op
   let i := match op with
-    | .openH i _ | .closeH i | .put i _ | .cstart i _ _ | .cresume i | .ctimeout i | .rebase i | .addTables i _ => some i
+    | .openH i _ | .closeH i | .put i _ | .cstart i _ _ | .cresume i | .ctimeout i | .rebase i | .addTables i _ | .conjoin i => some i
     | .writeTable _ => none
   match i with
-  | some i => (s'.land i, r)
+  | some i => (s'.land i (s.hs i).novel, r)
   | none => (s', r)
 
 def Sys.run (env : Env) (s : Sys) : List Op → Sys
